@@ -62,7 +62,7 @@ TaskStep(e) ==
   \/ /\ st.task[e].ph = "run" /\ st.rxblk[e].k = "none" /\ SrcHasMsg(st, e)
      /\ st' = [RecvOne(st, e) EXCEPT !.obs = NoObs]
   \/ /\ st.task[e].ph = "run" /\ st.sink[e] = "open" /\ st.outq[e] # <<>>
-     /\ st' = [SendOne(st, e) EXCEPT !.obs = NoObs]
+     /\ st' = [Flush(SendOne(st, e), e) EXCEPT !.obs = NoObs]
 
 Done ==
   /\ \A e \in E : (e = "A" \/ BothWays) =>
